@@ -174,6 +174,33 @@ def rule_track(ctx):
            (f'`{early[0].text()[:60]}` (line {early[0].line}) returns a point before the range check: an out-of-range '
             'distance is silently clamped to an end waypoint instead of being refused'),
            line=(early[0].line if early else loc_.node.lineno))
+    # R7 queries are pure: a location depends on the distance asked for, not on earlier queries
+    gtc = m.cls('GroundTrack')
+    nq = 0
+    for meth in gtc.methods.values():
+        if meth.name in ('__init__', '__post_init__'):
+            continue
+        nq += 1
+        writes = [st for t, st, how in stores_to(meth.node) if isinstance(t, (ast.Attribute, ast.Subscript))
+                  and norm(t).startswith('self.')]
+        ctx.ob('C15-R7', meth, f'{meth.name} does not modify the track', not writes,
+               'no store to self' if not writes else
+               (f'`{norm(writes[0])[:60]}` keeps state between queries: the point returned for a distance then depends '
+                'on which distances were asked for before (a lookup that resumes from a cursor is wrong for any '
+                'non-monotonic query sequence)'), line=(writes[0].lineno if writes else meth.node.lineno),
+               nontrivial=bool(writes))
+    ctx.floor('C15-R7', nq, 6, 'GroundTrack query methods')
+    # R8 the mission distance is only ever the geodesic: nobody assigns gc_distance
+    nst = 0
+    for fi2 in prog.all_functions():
+        for t, st, how in stores_to(fi2.node):
+            if isinstance(t, ast.Attribute) and t.attr == 'gc_distance':
+                nst += 1
+                ctx.ob('C15-R8', fi2, f'`{norm(st)[:70]}`', False,
+                       'the cached great-circle distance is overwritten with a value that is not the WGS-84 geodesic between '
+                       'the airport positions (a stated schedule distance differs from it and is not symmetric)', line=st.lineno)
+    ctx.ob('C15-R8', (MI, 'Mission'), 'gc_distance is produced only by the geodesic property', nst == 0,
+           'no assignment to .gc_distance anywhere in the program' if nst == 0 else f'{nst} assignment(s)', nontrivial=False)
     cont = m.func('GroundTrack.__contains__')
     r = [n for n in walk_no_nested(cont.node) if isinstance(n, ast.Return)]
     ok = len(r) == 1 and norm(r[0].value) in (
